@@ -2056,6 +2056,11 @@ func (f *formatter) ScalarEncapsedStringPart(n *ast.ScalarEncapsedStringPart) {
 
 func (f *formatter) ScalarEncapsedStringVar(n *ast.ScalarEncapsedStringVar) {
 	n.DollarOpenCurlyBracketTkn = f.newToken(token.T_DOLLAR_OPEN_CURLY_BRACES, []byte("${"))
+	if _, ok := n.Name.(*ast.Identifier); !ok {
+		// "${ b }" (the variable named by the constant b) must not become
+		// "${b}" (the variable $b): a name directly behind "${" is a variable name
+		f.addFreeFloating(token.T_WHITESPACE, []byte(" "))
+	}
 	n.Name.Accept(f)
 
 	n.OpenSquareBracketTkn = nil
